@@ -552,6 +552,140 @@ Definition to_float_form (t : string) : float_reading :=
        | _ => NotRead
        end.
 
+(* ---- MIP/mip/datacard.py: expand_data_card (token level) -------------------- *)
+(* Generic in the numbers: V = values, rd = to_float on a plain entry (None =
+   ValueError), lin lo hi n = the n interior values of nI, mul = xM.
+   Tokens are lower-cased first; the LOG shorthand is not modelled (a token
+   ending in "log" makes the model abstain). acc = the result so far, last
+   entry first; k = tokens consumed so far. *)
+Inductive xerr := XIndex | XValue | XType | XUnsupported.
+Inductive xres (A : Type) := XOk (a : A) | XErr (e : xerr).
+Arguments XOk {A}. Arguments XErr {A}.
+
+Inductive tkind := KRep (pre : string) | KInt (pre : string) | KMul (pre : string)
+                 | KJump (pre : string) | KLog | KPlain.
+
+Fixpoint last_char (s : string) : option ascii :=
+  match s with
+  | EmptyString => None
+  | String c EmptyString => Some c
+  | String _ r => last_char r
+  end.
+
+Fixpoint but_last (s : string) : string :=
+  match s with
+  | EmptyString => EmptyString
+  | String _ EmptyString => EmptyString
+  | String c r => String c (but_last r)
+  end.
+
+Definition ends_log (t : string) : bool :=
+  Nat.leb 3 (length t) && String.eqb (substring (length t - 3) 3 t) "log".
+
+(* classification of a lower-cased token, in the order of the if/elif chain *)
+Definition kind_of (t : string) : tkind :=
+  match last_char t with
+  | Some c =>
+      if ceq c "r" then KRep (but_last t)
+      else if ceq c "i" then KInt (but_last t)
+      else if ceq c "m" then KMul (but_last t)
+      else if ceq c "j" then KJump (but_last t)
+      else if ends_log t then KLog else KPlain
+  | None => KPlain
+  end.
+
+(* int(token[:-1]) if len(token) > 1 else 1, on digit strings *)
+Definition count_of (pre : string) : option nat :=
+  match pre with
+  | EmptyString => Some 1
+  | _ => if all_digits pre then Some (N.to_nat (parse_digits pre 0%N)) else None
+  end.
+
+Section Expand.
+  Variable V : Type.
+  Variable rd : string -> option V.
+  Variable lin : V -> V -> nat -> list V.
+  Variable mul : V -> V -> V.
+
+  Definition full (expected : option nat) (acc : list (option V)) : bool :=
+    match expected with Some e => Nat.leb e (List.length acc) | None => false end.
+
+  Definition finish (expected : option nat) (acc : list (option V)) (k : nat)
+    : xres (list (option V) * nat) :=
+    match expected with
+    | Some e => if Nat.eqb (List.length acc) e then XOk (rev acc, k) else XErr XValue
+    | None => XOk (rev acc, k)
+    end.
+
+  Fixpoint run (expected : option nat) (acc : list (option V)) (k : nat) (ts : list string)
+    : xres (list (option V) * nat) :=
+    match ts with
+    | [] => finish expected acc k
+    | t0 :: r =>
+        if full expected acc then finish expected acc k
+        else
+          let t := lower t0 in
+          match kind_of t with
+          | KRep pre =>
+              match count_of pre with
+              | None => XErr XValue
+              | Some n => match acc with
+                          | [] => XErr XIndex
+                          | v :: _ => run expected (repeat v n ++ acc)%list (S k) r
+                          end
+              end
+          | KInt pre =>
+              match acc with
+              | [] => XErr XIndex
+              | lo :: _ =>
+                  match r with
+                  | [] => XErr XIndex
+                  | u :: r' =>
+                      match rd (lower u) with
+                      | None => XErr XValue
+                      | Some hi =>
+                          match lo with
+                          | None => XErr XType
+                          | Some lo' =>
+                              match count_of pre with
+                              | None => XErr XValue
+                              | Some n => run expected
+                                              (Some hi :: rev (map Some (lin lo' hi n)) ++ acc)%list
+                                              (S (S k)) r'
+                              end
+                          end
+                      end
+                  end
+              end
+          | KMul pre =>
+              match pre with
+              | EmptyString => XErr XValue
+              | _ => match rd pre with
+                     | None => XErr XValue
+                     | Some f => match acc with
+                                 | [] => XErr XIndex
+                                 | None :: _ => XErr XType
+                                 | Some v :: _ => run expected (Some (mul v f) :: acc) (S k) r
+                                 end
+                     end
+              end
+          | KJump pre =>
+              match count_of pre with
+              | None => XErr XValue
+              | Some n => run expected (repeat None n ++ acc)%list (S k) r
+              end
+          | KLog => XErr XUnsupported
+          | KPlain =>
+              match rd t with
+              | None => XErr XValue
+              | Some v => run expected (Some v :: acc) (S k) r
+              end
+          end
+    end.
+
+  Definition expand (expected : option nat) (ts : list string) := run expected [] 0 ts.
+End Expand.
+
 (* ---- the front end: text -> contents of the cards of each block ------------- *)
 
 Definition block_cards (b : string) : list string := map content (get_cards b).
